@@ -19,6 +19,8 @@ mod c03;
 mod c04;
 mod c05;
 mod c06;
+mod c07;
+mod c08;
 mod c10;
 mod cli;
 mod edits;
@@ -98,6 +100,8 @@ fn main() {
         "C04" => c04::run(&ctx),
         "C05" => c05::run(&ctx),
         "C06" => c06::run(&ctx),
+        "C07" => c07::run(&ctx),
+        "C08" => c08::run(&ctx),
         "C10" => c10::run(&ctx),
         _ => {
             eprintln!("kmon: unknown property {}", prop);
